@@ -45,6 +45,79 @@ def _marker_code(t):
     return None
 
 
+def _class_of(prog, m, call):
+    """(module, ClassDef) constructed by the call node, or None"""
+    from ..loader import dotted_name
+    dn = dotted_name(call.func) if isinstance(call, ast.Call) else None
+    if dn is None:
+        return None
+    ref = prog.resolve_dotted(m, dn)
+    return (ref[1], ref[2]) if ref[0] == "class" else None
+
+
+def _class_attr(prog, m, cls, name, depth=0):
+    """(module, node) defining *name* in the class or, failing that, in its bases (single inheritance chain)"""
+    for n in cls.body:
+        if isinstance(n, ast.FunctionDef) and n.name == name:
+            return m, n
+        if isinstance(n, ast.Assign) and any(isinstance(t, ast.Name) and t.id == name for t in n.targets):
+            return m, n.value
+    if depth < 5:
+        from ..loader import dotted_name
+        for b in cls.bases:
+            dn = dotted_name(b)
+            if dn is None:
+                continue
+            ref = prog.resolve_dotted(m, dn)
+            if ref[0] == "class":
+                hit = _class_attr(prog, ref[1], ref[2], name, depth + 1)
+                if hit is not None:
+                    return hit
+    return None
+
+
+def _fold_literal(prog, m, node, depth=0):
+    if isinstance(node, ast.Constant):
+        return node.value
+    if isinstance(node, ast.Name) and depth < 4:
+        b = m.bindings.get(node.id)
+        if b is not None and b[0] == "assign" and m.bind_count.get(node.id, 0) == 1:
+            return _fold_literal(prog, m, b[1], depth + 1)
+    return None
+
+
+def marker_codes(prog):
+    """{'NOTSET'|'SET'|'CLEARED': code} -- the value() of the three marker instances of rxsci.state.markers, through
+    their classes (a constant returned by value(), or a class attribute returned by an inherited value())"""
+    mm = prog.module("rxsci/state/markers.py")
+    out = {}
+    for k, v in MARKERS.items():
+        name = v.split(".")[-1]
+        b = mm.bindings.get(name)
+        if b is None or b[0] != "assign":
+            continue
+        c = _class_of(prog, mm, b[1])
+        if c is None:
+            continue
+        cm, cls = c
+        hit = _class_attr(prog, cm, cls, "value")
+        if hit is None or not isinstance(hit[1], ast.FunctionDef):
+            continue
+        fm, f = hit
+        rets = [x.value for x in ast.walk(f) if isinstance(x, ast.Return)]
+        if len(rets) != 1 or rets[0] is None:
+            continue
+        rv = rets[0]
+        val = _fold_literal(prog, fm, rv)
+        if val is None and isinstance(rv, ast.Attribute) and isinstance(rv.value, ast.Name) and rv.value.id == "self":
+            a = _class_attr(prog, cm, cls, rv.attr)
+            if a is not None and not isinstance(a[1], ast.FunctionDef):
+                val = _fold_literal(prog, a[0], a[1])
+        if val is not None:
+            out[k] = val
+    return out
+
+
 def _method(ctx, name):
     return ctx.function(REL, "MemoryStore." + name)
 
@@ -72,24 +145,26 @@ def rule_ms(ctx: Ctx):
         r1.paths += 1
         r3.paths += 1
         iters = [e for e in p.trace if e.k == "loopiter"]
-        # growth loop
+
+        def count_ok(cnt):
+            """cnt == key[0] + 1 - len(<one of the arrays>)"""
+            f = linform(cnt) if cnt is not None else None
+            if f is None or f[1] != 1:
+                return False
+            atoms = dict(f[0])
+            k0 = [a for a in atoms if _key0(a)]
+            ln = [a for a in atoms if a[0] == "call" and a[1] == ("builtin", "len") and _arr(a[2][0]) is not None]
+            return len(atoms) == 2 and len(k0) == 1 and len(ln) == 1 and atoms[k0[0]] == 1 and atoms[ln[0]] == -1
+        # growth, idiom 1: a loop appending one slot to each array per step
         for it in iters:
             grow_paths += 1
             # range(append_count) with append_count = key[0] + 1 - len(<array>), guarded by append_count > 0
             rng = it.iter
             ok = rng is not None and rng[0] == "call" and rng[1] == ("builtin", "range") and len(rng[2]) == 1
             cnt = rng[2][0] if ok else None
-            good = False
-            if cnt is not None:
-                f = linform(cnt)
-                if f is not None and f[1] == 1:
-                    atoms = dict(f[0])
-                    k0 = [a for a in atoms if _key0(a)]
-                    ln = [a for a in atoms if a[0] == "call" and a[1] == ("builtin", "len") and _arr(a[2][0]) is not None]
-                    good = len(atoms) == 2 and len(k0) == 1 and len(ln) == 1 and atoms[k0[0]] == 1 and atoms[ln[0]] == -1
+            good = count_ok(cnt)
             r1.ob(good, lambda: _f("MS-1", "add_key{growth-count}", mm, it.node,
                                    "the arrays must grow by (key[0] + 1) - len(array) slots so that index key[0] exists afterwards; the loop runs over %s" % show(rng), trace_of(p)))
-            guard = [e for e in p.trace if e.k == "decision" and cnt is not None and any(x == cnt for x in subterms(e.test))]
             # appends inside the iteration
             pos = p.trace.index(it)
             end = next((k for k in range(pos + 1, len(p.trace)) if p.trace[k].k in ("loopiter", "loopexit")), len(p.trace))
@@ -103,6 +178,32 @@ def rule_ms(ctx: Ctx):
             st_app = apps.get("state", [None])[0]
             r3.ob(st_app is not None and _marker_code(st_app.args[0]) == "CLEARED", lambda: _f(
                 "MS-3", "add_key{fresh-slot-marker}", mm, it.node, "slots created by growth (indices below key[0]) must be marked CLEARED, not readable", trace_of(p)))
+        # growth, idiom 2: array.extend([filler] * count), once per array, under count > 0
+        exts = [e for e in p.trace if e.k == "mutate" and e.method == "extend" and _arr(e.base)]
+        if exts:
+            grow_paths += 1
+            by = {}
+            for e in exts:
+                by.setdefault(_arr(e.base), []).append(e)
+
+            def fill(e):
+                a0 = e.args[0] if e.args else None
+                if a0 is not None and a0[0] == "binop" and a0[1] == "Mult":
+                    for x, y in ((a0[2], a0[3]), (a0[3], a0[2])):
+                        if x[0] == "list" and len(x) == 2:
+                            return x[1], y
+                return None, None
+            cnts = {fill(e)[1] for e in exts}
+            r1.ob(all(len(by.get(a, [])) == 1 for a in ARRAYS) and len(cnts) == 1, lambda: _f(
+                "MS-1", "add_key{lock-step}", mm, exts[0].node,
+                "values, state and keys must each be extended once, by the same number of slots; extensions: %s" % [e.brief() for e in exts], trace_of(p)))
+            cnt = next(iter(cnts))
+            r1.ob(count_ok(cnt), lambda: _f("MS-1", "add_key{growth-count}", mm, exts[0].node,
+                                            "the arrays must grow by (key[0] + 1) - len(array) slots so that index key[0] exists afterwards; they grow by %s" % (
+                                                show(cnt) if cnt else None), trace_of(p)))
+            st_ext = by.get("state", [None])[0]
+            r3.ob(st_ext is not None and fill(st_ext)[0] is not None and _marker_code(fill(st_ext)[0]) == "CLEARED", lambda: _f(
+                "MS-3", "add_key{fresh-slot-marker}", mm, exts[0].node, "slots created by growth (indices below key[0]) must be marked CLEARED, not readable", trace_of(p)))
         # marker writes for the key itself
         writes = [e for e in p.trace if e.k == "substore" and _arr(e.base) == "state"]
         first = writes[0] if writes else None
@@ -147,36 +248,35 @@ def rule_ms(ctx: Ctx):
                     r2.ob(_key0(idx), lambda e=e, name=name: _f(
                         "MS-2", "%s{index}" % name, mm, e.node,
                         "%s writes %s: a write that is not at index key[0] of the operation's own key changes what another key reads" % (name, e.brief()), trace_of(p)))
-    # no other method writes the arrays
+    # no other public method writes the arrays (private helpers are followed from their callers)
     cls = [n for n in m.tree.body if isinstance(n, ast.ClassDef) and n.name == "MemoryStore"]
     if not cls:
         raise AnalysisError("class MemoryStore vanished")
     for meth in cls[0].body:
-        if not isinstance(meth, ast.FunctionDef) or meth.name in writers + ["__init__", "clear"]:
+        if not isinstance(meth, ast.FunctionDef) or meth.name in writers + ["__init__", "clear"] or (meth.name.startswith("_") and not meth.name.startswith("__")):
             continue
-        for n in ast.walk(meth):
-            tgt = None
-            if isinstance(n, ast.Assign):
-                tgt = n.targets
-            elif isinstance(n, ast.AugAssign):
-                tgt = [n.target]
-            elif isinstance(n, ast.Delete):
-                tgt = n.targets
-            for t in tgt or []:
-                b = t
-                while isinstance(b, ast.Subscript):
-                    b = b.value
-                if isinstance(b, ast.Attribute) and b.attr in ARRAYS + ("next_index", "free_slots") and isinstance(b.value, ast.Name) and b.value.id == "self":
-                    r2.instances += 1
-                    r2.ob(False, lambda t=t, meth=meth: _f("MS-2", "%s{writes}" % meth.name, m, t,
-                                                           "reader method %s writes %s" % (meth.name, ast.unparse(t))))
-            if isinstance(n, ast.Call) and isinstance(n.func, ast.Attribute) and n.func.attr in ("append", "pop", "clear", "insert", "remove", "extend"):
-                b = n.func.value
-                while isinstance(b, ast.Subscript):
-                    b = b.value
-                if isinstance(b, ast.Attribute) and b.attr in ARRAYS and isinstance(b.value, ast.Name) and b.value.id == "self":
-                    r2.ob(False, lambda n=n, meth=meth: _f("MS-2", "%s{mutates}" % meth.name, m, n,
-                                                           "reader method %s mutates %s" % (meth.name, ast.unparse(n))))
+        r2.instances += 1
+        for p in ctx.fn_paths(m, meth, max_iter=1):
+            r2.paths += 1
+            for e in p.trace:
+                bad = None
+                if e.k in ("substore", "subdel"):
+                    base = e.base
+                    while base[0] == "sub":
+                        base = base[1]
+                    if _arr(base) is not None or (base[0] == "attr" and base[1] == SELF and base[2] in ("next_index", "free_slots")):
+                        bad = "writes"
+                elif e.k == "attrstore" and e.base == SELF and e.attr in ARRAYS + ("next_index", "free_slots"):
+                    bad = "writes"
+                elif e.k == "mutate":
+                    base = e.base
+                    while base[0] == "sub":
+                        base = base[1]
+                    if _arr(base) is not None and e.method in ("append", "pop", "clear", "insert", "remove", "extend"):
+                        bad = "mutates"
+                if bad:
+                    r2.ob(False, lambda e=e, meth=meth, bad=bad: _f("MS-2", "%s{%s}" % (meth.name, bad), m, e.node,
+                                                                    "reader method %s %s the store: %s" % (meth.name, bad, e.brief()), trace_of(p)))
     # clear() resets the three arrays together
     mm, fn = _method(ctx, "clear")
     r1.instances += 1
@@ -238,18 +338,10 @@ def rule_ms(ctx: Ctx):
                 r3.ob(v[0] == "call" and v[1] == ("builtin", "bool"), lambda: _f(
                     "MS-3", "get{bool}", mm, fn, "a bool state is stored as a byte and must be converted back with bool()", trace_of(p)))
     r3.ob(saw_notset and saw_value, lambda: _f("MS-3", "get{both}", mm, fn, "get must have a NOTSET path and a value path"))
-    # marker codes are pairwise distinct constants
-    um = prog.module("rxsci/internal/utils.py")
-    codes = {}
-    for n in um.tree.body:
-        if isinstance(n, ast.ClassDef) and n.name in ("StateNotSet", "StateSet", "StateCleared"):
-            for f in n.body:
-                if isinstance(f, ast.FunctionDef) and f.name == "value":
-                    rets = [x.value for x in ast.walk(f) if isinstance(x, ast.Return)]
-                    if len(rets) == 1 and isinstance(rets[0], ast.Constant):
-                        codes[n.name] = rets[0].value
+    # marker codes are pairwise distinct byte constants
+    codes = marker_codes(prog)
     r3.instances += 1
-    r3.ob(len(codes) == 3 and len(set(codes.values())) == 3 and all(isinstance(v, int) and 0 <= v < 256 for v in codes.values()),
+    r3.ob(len(codes) == 3 and len(set(codes.values())) == 3 and all(isinstance(v, int) and not isinstance(v, bool) and 0 <= v < 256 for v in codes.values()),
           lambda: Finding("MS-3", "rxsci/internal/utils.py{marker-codes}", "rxsci/internal/utils.py:1",
                           "the three marker codes must be distinct byte constants; found %s" % codes))
 
@@ -329,33 +421,36 @@ def rule_ms(ctx: Ctx):
             "an index is returned to the free list while the map entry that owns it is kept: the index can be handed out again while still in use"))
 
     # ---------------- MS-5 typecode table -----------------------------------
+    # __init__ is evaluated for each concrete data type: the container factory it stores must be array(<typecode>) for
+    # the four numeric types and list for anything else
     mm, fn = _method(ctx, "__init__")
     r5.instances += 1
-    want = {"int": "q", "uint": "Q", "float": "d", "bool": "B"}
+    LIST = ("builtin", "list")
+    cases = [(("builtin", "int"), "q"), (("const", "uint"), "Q"), (("builtin", "float"), "d"), (("builtin", "bool"), "B"),
+             (("const", "obj"), None), (("builtin", "str"), None), (("const", "mapper"), None), (("builtin", "object"), None)]
     got = {}
-    default_list = False
-    for p in ctx.fn_paths(mm, fn):
-        r5.paths += 1
-        cv = [e for e in p.trace if e.k == "attrstore" and e.attr == "create_values"]
-        if len(cv) != 1:
+    for dt, code in cases:
+        vals = set()
+        for p in ctx.fn_paths(mm, fn, extra_env={"data_type": dt}):
+            r5.paths += 1
+            cv = [e for e in p.trace if e.k == "attrstore" and e.attr == "create_values"]
+            vals.add(cv[-1].value if cv else None)
+        name = dt[1]
+        if len(vals) != 1:
+            got[name] = "depends on more than the data type"
             continue
-        decs = [e for e in p.trace if e.k == "decision" and any(x == ("arg", "data_type") for x in subterms(e.test))
-                and e.test[0] == "cmp" and e.test[2] == ("arg", "data_type") and e.test[1] in ("Is", "Eq")]
-        true = [e for e in decs if e.outcome and e.node.lineno <= cv[0].node.lineno]
-        v = cv[0].value
-        if true:
-            t = true[-1].test[3]
-            name = t[1] if t[0] in ("builtin", "const") else show(t)
-            if v[0] == "partial" and v[1][0] == "glob" and v[1][1].endswith("array") and v[2] and v[2][0][0] == "const":
-                got[name] = v[2][0][1]
-            else:
-                got[name] = show(v)
+        v = next(iter(vals))
+        if v == LIST:
+            got[name] = None
+        elif v is not None and v[0] == "partial" and v[1][0] == "glob" and v[1][1].endswith("array") and len(v[2]) == 1 and v[2][0][0] == "const":
+            got[name] = v[2][0][1]
         else:
-            default_list = v == ("builtin", "list")
-    r5.ob(got == want and default_list, lambda: _f(
+            got[name] = show(v) if v is not None else "not set"
+    want = {dt[1]: code for dt, code in cases}
+    r5.ob(got == want, lambda: _f(
         "MS-5", "__init__{typecodes}", mm, fn,
-        "typecode table is %s with %s as fallback; the declared types must map to int->'q', 'uint'->'Q', float->'d', bool->'B', else list "
-        "(a narrower typecode truncates or rejects stored values)" % (got, "list" if default_list else "no list")))
+        "container per data type is %s (None = list); the declared types must map to int->'q', 'uint'->'Q', float->'d', bool->'B', anything else a list "
+        "(a narrower typecode truncates or rejects stored values)" % got))
     for r, n in ((r1, 2), (r2, 4), (r3, 5), (r4, 2), (r5, 1)):
         r.require_instances(n)
     return [r1, r2, r3, r4, r5]
@@ -384,52 +479,69 @@ def rule_ms6(ctx: Ctx) -> RuleResult:
     mscls = [n for n in ms.tree.body if isinstance(n, ast.ClassDef) and n.name == "MemoryStore"][0]
     ms_methods = {f.name: f for f in mscls.body if isinstance(f, ast.FunctionDef)}
     store_methods = {f.name: f for f in classes["Store"].body if isinstance(f, ast.FunctionDef)}
+
+    def forwards(f, target, receiver_ok, nskip, inline):
+        """every path of f is one call <receiver>.<target>(<the parameters after the first nskip>, in order), whose
+        result is returned"""
+        params = [a.arg for a in f.args.args]
+        want = tuple(("arg", p_) for p_ in params[nskip:])
+        paths = ctx.fn_paths(m, f, inline=inline)
+        why = "it has no path"
+        for p in paths:
+            r.paths += 1
+            calls = [e for e in p.trace if e.k == "call" and e.d.get("method") == target]
+            other = [e for e in p.trace if e.k in ("substore", "attrstore", "mutate", "emit", "store", "nonlocal")]
+            if len(calls) != 1:
+                return False, "it calls %s" % ([e.brief() for e in p.trace if e.k == "call"] or "nothing")
+            c = calls[0]
+            if tuple(c.args) != want:
+                return False, "it calls %s" % c.brief()
+            if not receiver_ok(c.base, p, params):
+                return False, "the receiver of %s is %s" % (target, show(c.base))
+            if p.value != c.result:
+                return False, "it returns %s" % (show(p.value) if p.value is not None else None)
+            if other and inline:
+                return False, "it also does %s" % other[0].brief()
+            why = None
+        return why is None, why
+
+    def state_store(base, p, params):
+        # self.states[<state parameter>]
+        return base[0] == "sub" and base[1] == ("attr", SELF, "states") and base[2] == ("arg", params[1])
+
+    def active_store(base, p, params):
+        # the result of self.get_store()
+        gs = [e for e in p.trace if e.k == "call" and e.d.get("method") == "get_store" and e.base == SELF]
+        return len(gs) == 1 and base == gs[0].result
+
     ops = ["add_key", "del_key", "set", "get", "iterate", "add_map", "del_map", "get_map", "iterate_map"]
     for name in ops:
         f = store_methods.get(name)
         if f is None:
             raise AnalysisError("Store.%s vanished" % name)
         r.instances += 1
+        ok, why = forwards(f, name, state_store, 2, True)
+        tgt = ms_methods.get(name)
+        if ok and tgt is not None:
+            tparams = [a.arg for a in tgt.args.args][1:]
+            ok = len(tparams) == len(f.args.args) - 2
+            why = "MemoryStore.%s takes %s" % (name, tparams)
         params = [a.arg for a in f.args.args]
-        rets = [n for n in ast.walk(f) if isinstance(n, ast.Return)]
-        ok = len(rets) == 1 and isinstance(rets[0].value, ast.Call)
-        why = "body is not a single return of a call"
-        if ok:
-            c = rets[0].value
-            want_args = params[2:]
-            ok = isinstance(c.func, ast.Attribute) and c.func.attr == name and ast.unparse(c.func.value) == "self.states[%s]" % params[1] \
-                and [ast.unparse(a) for a in c.args] == want_args and not c.keywords
-            why = "it calls %s" % ast.unparse(c)
-            tgt = ms_methods.get(name)
-            if ok and tgt is not None:
-                tparams = [a.arg for a in tgt.args.args][1:]
-                ok = len(tparams) == len(want_args)
-                why = "MemoryStore.%s takes %s" % (name, tparams)
-        r.ob(ok, lambda name=name, why=why, f=f: Finding("MS-6", "rxsci/state/store.py::Store.%s" % name, m.where(f),
-                                                         "Store.%s must forward (%s) unchanged to the same operation of the state's store: %s" % (
-                                                             name, ", ".join(params[2:]), why)))
+        r.ob(ok, lambda name=name, why=why, f=f, params=params: Finding(
+            "MS-6", "rxsci/state/store.py::Store.%s" % name, m.where(f),
+            "Store.%s must forward (%s) unchanged to the same operation of the state's store: %s" % (name, ", ".join(params[2:]), why)))
     mgr = {f.name: f for f in classes["StoreManager"].body if isinstance(f, ast.FunctionDef)}
     for name in ["add_key", "del_key", "set_state", "get_state", "iterate_state", "add_map", "del_map", "get_map", "iterate_map"]:
         f = mgr.get(name)
         if f is None:
             raise AnalysisError("StoreManager.%s vanished" % name)
         r.instances += 1
+        ok, why = forwards(f, RENAME.get(name, name), active_store, 1, False)
         params = [a.arg for a in f.args.args]
-        rets = [n for n in ast.walk(f) if isinstance(n, ast.Return)]
-        ok = len(rets) == 1 and isinstance(rets[0].value, ast.Call)
-        why = "body is not a single return of a call"
-        if ok:
-            c = rets[0].value
-            tgt = RENAME.get(name, name)
-            recv = ast.unparse(c.func.value) if isinstance(c.func, ast.Attribute) else "?"
-            # receiver is the result of self.get_store()
-            recv_ok = recv == "self.get_store()" or any(
-                isinstance(n, ast.Assign) and ast.unparse(n.targets[0]) == recv and ast.unparse(n.value) == "self.get_store()" for n in ast.walk(f))
-            ok = isinstance(c.func, ast.Attribute) and c.func.attr == tgt and recv_ok and [ast.unparse(a) for a in c.args] == params[1:] and not c.keywords
-            why = "it calls %s" % ast.unparse(c)
-        r.ob(ok, lambda name=name, why=why, f=f: Finding("MS-6", "rxsci/state/store.py::StoreManager.%s" % name, m.where(f),
-                                                         "StoreManager.%s must forward (%s) unchanged to Store.%s of the active partition: %s" % (
-                                                             name, ", ".join(params[1:]), RENAME.get(name, name), why)))
+        r.ob(ok, lambda name=name, why=why, f=f, params=params: Finding(
+            "MS-6", "rxsci/state/store.py::StoreManager.%s" % name, m.where(f),
+            "StoreManager.%s must forward (%s) unchanged to Store.%s of the active partition: %s" % (
+                name, ", ".join(params[1:]), RENAME.get(name, name), why)))
     r.require_instances(18)
     return r
 
